@@ -144,7 +144,8 @@ class SimReadHandle(object):
     """What DiffXReader / DiffX.from_stream are handed: read / seek / tell /
     close / context manager over the bytes visible to this consumer."""
 
-    def __init__(self, world, data, actor, cap=None, read_error_at=None):
+    def __init__(self, world, data, actor, cap=None, read_error_at=None,
+                 seek_error_at=None):
         self.world = world
         self.data = bytes(data)
         self.pos = 0
@@ -154,6 +155,8 @@ class SimReadHandle(object):
         self.nreads = 0
         self.cap = cap if cap is not None else 8 * len(self.data) + 1024
         self.read_error_at = read_error_at
+        self.seek_error_at = seek_error_at
+        self.nseeks = 0
         self.max_read = 0
         self.close_calls = 0
 
@@ -200,6 +203,14 @@ class SimReadHandle(object):
     def seek(self, off, whence=0):
         if self.closed:
             raise ValueError('I/O operation on closed file.')
+
+        idx = self.nseeks
+        self.nseeks += 1
+
+        if self.seek_error_at is not None and idx == self.seek_error_at:
+            self._event('seek-error', off, whence)
+            self.world.faults['seek_error'] += 1
+            raise OSError(errno.EIO, 'Input/output error on seek (injected)')
 
         if whence == os.SEEK_SET:
             new = off
@@ -439,7 +450,8 @@ def apply_faults(world, data, faults, fname):
                     lines[n] = lines[n][:-1]
 
                 data = b'\n'.join(lines)
-        elif kind in ('write_error', 'crash', 'read_error', 'rechunk'):
+        elif kind in ('write_error', 'crash', 'read_error', 'seek_error',
+                      'rechunk'):
             continue        # not storage faults
         else:
             raise HarnessError('unknown fault kind %r' % (kind,))
